@@ -82,7 +82,7 @@ Print Assumptions C36_partial_guard_satisfiable.
 
 Example C36_bulk_fill_agrees :
   forallb (fun n => same_view (C36.Check.bulk_fill n (init (mkCaps 2 30 5)) 1 0 3 7)
-                              (C36.Check.fill (N.to_nat n) 8%nat [] (init (mkCaps 2 30 5)) 1 0 3 7))
+                              (C36.Check.fill (N.to_nat n) 8%nat 0%nat (init (mkCaps 2 30 5)) 1 0 3 7))
           [1; 2; 5; 17; 30; 31] = true.
 Proof. exact bulk_fill_agrees. Qed.
 Print Assumptions C36_bulk_fill_agrees.
